@@ -449,6 +449,11 @@ def rule_const(ctx: Ctx) -> RuleReport:
     consts = {n.value for n in walk_own(pp.node) if isinstance(n, ast.Constant) and isinstance(n.value, str)}
     chk({"EncryptedSummary", "EncryptedSummaryInformation"} <= consts and any(g.qual == "_has_ole_encryption_stream" for c in calls_in(pp) for g in resolve_call(ctx.p, pp, c).funcs),
         "PPT encrypted summary streams", ENC, pp.qual, ",".join(sorted(consts)), "is_ppt_encrypted must test the OLE encryption streams and EncryptedSummary*")
+    # [MS-PPT] 2.3.2 CurrentUserAtom.headerToken: 0xF3D1C4DF = encrypted document (bytes 12..16 of the Current User stream, little-endian)
+    tok = [n for n in walk_own(pp.node) if isinstance(n, ast.Compare) and len(n.ops) == 1 and isinstance(n.ops[0], ast.Eq) and ctx.folder.fold(pp.module, n.comparators[0]) == bytes.fromhex("dfc4d1f3")]
+    sl = [n.left for n in tok if isinstance(n.left, ast.Subscript) and isinstance(n.left.slice, ast.Slice) and ctx.folder.fold(pp.module, n.left.slice.lower) == 12 and ctx.folder.fold(pp.module, n.left.slice.upper) == 16]
+    chk(bool(tok) and bool(sl) and "Current User" in consts, "PPT Current User headerToken 0xF3D1C4DF at [12:16]", ENC, pp.qual, "Current User token " + ("present" if tok else "missing"),
+        "is_ppt_encrypted must also test CurrentUserAtom.headerToken == 0xF3D1C4DF (bytes 12..16 of the 'Current User' stream): an encrypted presentation saved without encrypted document properties has no EncryptedSummary stream")
     od = ctx.p.func(ENC, "is_odf_encrypted")
     consts = {n.value for n in walk_own(od.node) if isinstance(n, ast.Constant) and isinstance(n.value, str)}
     chk("META-INF/manifest.xml" in consts and "encryption-data" in consts, "ODF manifest encryption-data", ENC, od.qual, ",".join(sorted(consts))[:80], "is_odf_encrypted must look for encryption-data in META-INF/manifest.xml")
